@@ -7,6 +7,7 @@
 //   - every non-nil work error reached every subscriber registered before the run exactly once, as the same value;
 //     a subscriber added during the run receives only errors of items finishing later (C14)
 //   - no data race report, no panic (the process would die: the runner sees the exit status and stderr)
+//
 // Output: one JSON document {"runs": [...], "failures": [...]} on the file given by -out.
 package main
 
@@ -34,6 +35,7 @@ type runCfg struct {
 	Subs                         int
 	ErrEvery                     int // every n-th item returns an error (0 = never)
 	LateSub                      bool
+	ConcSubs                     bool // the early subscribers call Errors() concurrently
 	Seed                         int64
 }
 
@@ -76,8 +78,8 @@ func oneRun(c runCfg, fails *[]failure) runRes {
 	}
 	subs := []*sub{}
 	stopSubs := make(chan struct{})
-	startSub := func() *sub {
-		s := &sub{ch: q.Errors(), done: make(chan struct{})}
+	listen := func(ch chan error) *sub {
+		s := &sub{ch: ch, done: make(chan struct{})}
 		go func() {
 			defer close(s.done)
 			for {
@@ -92,8 +94,34 @@ func oneRun(c runCfg, fails *[]failure) runRes {
 		}()
 		return s
 	}
-	for i := 0; i < c.Subs; i++ {
-		subs = append(subs, startSub())
+	startSub := func() *sub { return listen(q.Errors()) }
+	if c.ConcSubs && c.Subs > 1 {
+		// several components register their error listener at the same moment (goroutines released together), all
+		// before any work is enqueued: every channel obtained must receive every later error exactly once
+		chans := make([]chan error, c.Subs)
+		var ready, reg sync.WaitGroup
+		var goFlag atomic.Bool
+		for i := 0; i < c.Subs; i++ {
+			ready.Add(1)
+			reg.Add(1)
+			go func(i int) {
+				defer reg.Done()
+				ready.Done()
+				for !goFlag.Load() {
+				}
+				chans[i] = q.Errors()
+			}(i)
+		}
+		ready.Wait()
+		goFlag.Store(true)
+		reg.Wait()
+		for _, ch := range chans {
+			subs = append(subs, listen(ch))
+		}
+	} else {
+		for i := 0; i < c.Subs; i++ {
+			subs = append(subs, startSub())
+		}
 	}
 	durs := make([]time.Duration, total)
 	prios := make([]int, total)
@@ -151,15 +179,17 @@ func oneRun(c runCfg, fails *[]failure) runRes {
 	}
 	// watchdog: generous (factor >= 20 over the expected run time)
 	expected := time.Duration(total) * 300 * time.Microsecond / time.Duration(c.W)
-	deadline := time.Now().Add(20*expected + 20*time.Second)
+	deadline := time.Now().Add(20*expected + 10*time.Second)
 	prodDone := make(chan struct{})
 	go func() { wg.Wait(); close(prodDone) }()
 	for finished.Load() < int64(total) && time.Now().Before(deadline) {
 		time.Sleep(200 * time.Microsecond)
 	}
+	hung := false
 	select {
 	case <-prodDone:
 	case <-time.After(time.Until(deadline) + time.Second):
+		hung = true
 		fail("enqueue-hang", "an Enqueue call did not return")
 	}
 	if f := finished.Load(); f < int64(total) {
@@ -187,6 +217,9 @@ func oneRun(c runCfg, fails *[]failure) runRes {
 	}
 	seen := map[uuid.UUID]bool{}
 	for _, id := range ids {
+		if hung {
+			break // ids of calls that never returned are unset
+		}
 		if seen[id] {
 			fail("distinct-ids", "Enqueue returned the same id twice")
 		}
@@ -268,12 +301,22 @@ func main() {
 			for _, L := range Ls {
 				for _, P := range Ps {
 					c := runCfg{Producers: P, W: W, L: L, PerProducer: 1 + per/P + rng.Intn(3), Seed: rng.Int63()}
+					if *prop == "C09" {
+						// work functions that return errors, with and without (receiving) error subscribers: a failing item
+						// must free its worker and its token like any other
+						c.ErrEvery = rng.Intn(4) // 0 = no errors
+						c.Subs = rng.Intn(3)
+					}
 					if *prop == "C14" {
 						c.Subs = rng.Intn(4)
 						c.ErrEvery = 1 + rng.Intn(4)
 						c.LateSub = rng.Intn(2) == 0
+						if rng.Intn(2) == 0 {
+							c.Subs = 2 + rng.Intn(7)
+							c.ConcSubs = true
+						}
 					}
-					if len(fails) >= 3 {
+					if len(fails) >= 1 {
 						continue // enough evidence: do not spend the watchdog margins on every remaining configuration
 					}
 					runs = append(runs, oneRun(c, &fails))
